@@ -24,7 +24,7 @@ ALLK = {"ReadTimeout", "WriteTimeout", "Unavailable", "OverloadedErrorMessage", 
 D4 = {"RETRY", "NEXT", "RETHROW", "IGNORE"}
 BASE = dict(NHosts=3, PoolConds=set(), MaxBad=0, SpecChoices={0, 1, 2}, IdemChoices={True}, TargetChoices={0},
             OkKinds={"rows"}, ErrKinds={"Unavailable"}, FatalKinds=set(), Decisions=D4, CLs={99}, MaxRetries=1,
-            MaxEpoch=1, Timeouts=True, Late=True)
+            MaxEpoch=1, Timeouts=True, Late=True, IdChoices={"default"})
 
 
 def _c(**kw):
@@ -39,17 +39,19 @@ GRAPHS = {
              _c(ErrKinds={"Unavailable"}, Decisions=D4))],
     "C15": [("silent / late nodes, first page and next page, missing or busy pools",
              _c(OkKinds={"rows", "more"}, Decisions={"RETRY", "NEXT"}, MaxEpoch=2, Late=False,
-                PoolConds={"missing", "busy"}, MaxBad=1))],
+                PoolConds={"missing", "busy"}, MaxBad=1, IdChoices={"one"}))],
     "C16": [("every retryable error x every decision x consistency x idempotence",
              _c(SpecChoices={0, 1}, IdemChoices={True, False}, ErrKinds=ALLK, CLs={99, 0, 4}, Late=False, Timeouts=False))],
     "C17": [("all 5^3 pool vectors, explicit target host or none",
              _c(SpecChoices={0, 1}, TargetChoices={0, 2}, PoolConds={"missing", "shutdown", "busy", "failing"}, MaxBad=3,
                 ErrKinds={"Unavailable", "ConnectionShutdown"}, Decisions={"RETRY", "NEXT", "RETHROW"}, Late=False,
-                Timeouts=False))],
+                Timeouts=False, IdChoices={"zero"}))],
 }
 # further graphs replayed edge by edge in the thorough tier only
 MORE_GRAPHS = {
-    "C14": [("fatal error answers", _c(SpecChoices={0, 1}, FatalKinds={"SyntaxException"}, Decisions={"RETRY", "RETHROW"})),
+    "C14": [("stream id 0 for every attempt / for the first attempt: which request the timeout deregisters",
+             _c(Decisions={"RETRY", "NEXT", "RETHROW"}, IdChoices={"zero", "one"})),
+            ("fatal error answers", _c(SpecChoices={0, 1}, FatalKinds={"SyntaxException"}, Decisions={"RETRY", "RETHROW"})),
             ("two pages (start_fetching_next_page) over 2 hosts, late answers",
              _c(NHosts=2, OkKinds={"rows", "more"}, Decisions={"RETRY", "RETHROW"}, MaxEpoch=2))],
 }
@@ -59,20 +61,23 @@ BIG = {
                FatalKinds={"SyntaxException"}, CLs={99, 0}, MaxRetries=2, MaxEpoch=2, PoolConds={"failing"}, MaxBad=1)),
     "C15": ("two pages x every pool condition on up to 2 hosts x 2 retries",
             _c(OkKinds={"rows", "more", "void"}, ErrKinds={"Unavailable", "ConnectionShutdown"}, MaxRetries=2, MaxEpoch=2,
-               PoolConds={"missing", "busy", "failing", "shutdown"}, MaxBad=2)),
+               PoolConds={"missing", "busy", "failing", "shutdown"}, MaxBad=2, IdChoices={"default", "one"})),
     "C16": ("7 error kinds x 4 decisions x consistency {None, ANY, QUORUM} x 2 retries x speculative 0-1 x idempotence, timeout",
-            _c(SpecChoices={0, 1}, IdemChoices={True, False}, ErrKinds=ALLK, CLs={99, 0, 4}, MaxRetries=2, Late=False)),
+            _c(SpecChoices={0, 1}, IdemChoices={True, False}, ErrKinds=ALLK, CLs={99, 0, 4}, MaxRetries=2, Late=False,
+               IdChoices={"default", "zero"})),
     "C17": ("all 6^4 pool vectors (missing, shut down, busy, failing, unwritable, healthy) x target host 0-4 x 2 retries",
             _c(NHosts=4, SpecChoices={0, 1}, TargetChoices={0, 1, 2, 3, 4},
                PoolConds={"missing", "shutdown", "busy", "failing", "unwritable"}, MaxBad=4,
-               ErrKinds={"Unavailable", "ConnectionShutdown"}, MaxRetries=2, Late=False, Timeouts=False)),
+               ErrKinds={"Unavailable", "ConnectionShutdown"}, MaxRetries=2, Late=False, Timeouts=False,
+               IdChoices={"zero", "one"})),
 }
 LIVENESS = _c(NHosts=2, OkKinds={"rows", "more"}, Decisions={"RETRY", "NEXT", "RETHROW"}, MaxEpoch=2, Late=False,
               PoolConds={"missing"}, MaxBad=1)
 TRACE_CONSTS = dict(NHosts=3, PoolConds={"missing", "shutdown", "busy", "failing", "unwritable", "noconn"}, MaxBad=3,
                     SpecChoices={0, 1, 2}, IdemChoices={True, False}, TargetChoices={0, 1, 2, 3},
                     OkKinds={"rows", "more", "void"}, ErrKinds=ALLK, FatalKinds={"SyntaxException", "InvalidRequest"},
-                    Decisions=D4, CLs={99, 0, 1, 4}, MaxRetries=3, MaxEpoch=2, Timeouts=True, Late=True)
+                    Decisions=D4, CLs={99, 0, 1, 4}, MaxRetries=3, MaxEpoch=2, Timeouts=True, Late=True,
+                    IdChoices={"default", "zero", "one"})
 
 ACTIONS = ["Start", "AnsOk", "AnsErr", "SpecFire", "TimeoutFire", "RetryTask"]
 # Witness_* predicates of Request.tla (negated reachability) that TLC itself must violate on the first graph configuration
@@ -116,6 +121,7 @@ WITNESS = {
         "NoHostAvailable at once": lambda s: s["final"] == "NoHostAvailable" and len(s["sentLog"]) == 0,
         "NoHostAvailable after a send": lambda s: s["final"] == "NoHostAvailable" and len(s["sentLog"]) > 0,
         "every host has an error entry": lambda s: s["started"] and all(e != "none" for e in _tup(s["errs"])),
+        "first attempt carries stream id 0": lambda s: s["started"] and str(s["ids"]) in ("zero", "one") and len(s["sentLog"]) > 0,
         "explicit target host": lambda s: s["started"] and s["target"] != 0,
         "retry on a host whose pool lost its connection": lambda s: s["act"]["name"] == "RetryTask"
         and "noconn" in _tup(s["pool"]) and len(s["sentLog"]) >= 2,
@@ -472,7 +478,8 @@ def replay(ctx, pid, obj):
     from harness.replay import request as rq
     if "actions" in obj:
         cfg = obj["config"]
-        h = rq.ReqHarness(obj["nhosts"], cfg["pool"], cfg["idem"], cfg["spec"], cfg["target"], max_epoch=obj.get("max_epoch", 2))
+        h = rq.ReqHarness(obj["nhosts"], cfg["pool"], cfg["idem"], cfg["spec"], cfg["target"], max_epoch=obj.get("max_epoch", 2),
+                          ids=cfg.get("ids", "default"))
         print("config", cfg)
         acts = list(obj["actions"])
         dv = obj.get("divergence") or {}
